@@ -162,19 +162,6 @@ Proof.
   - apply Z.leb_gt in E. split; [discriminate|lia].
 Qed.
 
-(* ---- stack map frames: known finding F14 ---- *)
-Theorem frames_written_partial fs pos : has_frames fs = false -> written_frames fs pos = tree_frames fs pos.
-Proof.
-  unfold written_frames. revert pos. induction fs as [|[f|] fs IH]; intros pos; cbn [has_frames existsb tree_frames]; try reflexivity.
-  - discriminate.
-  - intros H. destruct pos as [|p pos]; [reflexivity|]. apply IH. exact H.
-Qed.
-Theorem frames_written_refuted :
-  exists fs pos, has_frames fs = true /\ written_frames fs pos <> tree_frames fs pos.
-Proof. exists [Some 1%N], [0%Z]. split; [reflexivity|discriminate]. Qed.
-(* not proved (false today, F14): *)
-Definition frames_written_full : Prop := forall fs pos, written_frames fs pos = tree_frames fs pos.
-
 (* ---- the BootstrapMethods table ---- *)
 Lemma bfind_some m : forall e i, bfind m e = Some i -> In (e, i) m.
 Proof.
